@@ -288,6 +288,7 @@ def fieldKey (a : E) (f : String) : Option String :=
 def methKey (a : E) (m : String) : Option String :=
   match a with
   | .sel (.var o) fld => some (o ++ "." ++ fld ++ "." ++ m ++ "()")
+  | .var o => some (o ++ "." ++ m ++ "()")
   | _ => none
 
 def evalE (F : FloatOps) (ρ : Store) : E → R
@@ -362,6 +363,8 @@ def update (ρ : Store) (n : String) (v : V) : Store := (n, v) :: ρ
 def retVal (v : V) : Option (Outcome Val) :=
   match v with
   | .val x => some (ok x)
+  -- `return env.Ints[idx]`: an element of `Ints []uint64` used as a value
+  | .slot l i => (l[i]?).map (fun w => ok (.int ⟨64, false⟩ w))
   | _ => none
 
 /-- outcome of running a statement: fall through with a new store, or finish -/
